@@ -12,12 +12,14 @@ ID = "C16"
 PROPS = ["IsoVerif/Props/C16.lean", "IsoVerif/Props/C16PolyA.lean", "IsoVerif/Props/C16Record.lean",
          "IsoVerif/Props/C16Finder.lean", "IsoVerif/Props/C16MoveRef.lean", "IsoVerif/Props/C16FinderSpec.lean",
          "IsoVerif/Props/C16TailRecord.lean", "IsoVerif/Props/C16Concat.lean", "IsoVerif/Props/C16FinderChar.lean",
-         "IsoVerif/Props/C16CutsN.lean", "IsoVerif/Props/C16TailExons.lean"]
+         "IsoVerif/Props/C16CutsN.lean", "IsoVerif/Props/C16TailExons.lean",
+         # the CIGAR walkers regenerated from the source (Gen/Loops.lean): refinement Gen.f = Model.f + headline theorems over Gen.f
+         "IsoVerif/Lemmas/GenBase.lean", "IsoVerif/Lemmas/GenCigar.lean", "IsoVerif/Props/C16Gen.lean"]
 TARGETS = ["IsoVerif.Props.C16", "IsoVerif.Props.C16PolyA", "IsoVerif.Props.C16Record", "IsoVerif.Props.C16Finder",
            "IsoVerif.Props.C16MoveRef", "IsoVerif.Props.C16FinderSpec", "IsoVerif.Props.C16TailRecord",
            "IsoVerif.Props.C16Concat", "IsoVerif.Props.C16FinderChar", "IsoVerif.Props.C16CutsN",
-           "IsoVerif.Props.C16TailExons"]
-GEN_DEPS = ["Enums", "CigarClasses", "Prims"]
+           "IsoVerif.Props.C16TailExons", "IsoVerif.Lemmas.GenBase", "IsoVerif.Lemmas.GenCigar", "IsoVerif.Props.C16Gen"]
+GEN_DEPS = ["Enums", "CigarClasses", "Prims", "LoopsRt", "LoopsCigar", "LoopsCigarOps"]
 LEVEL = "proof"
 RULE = ("exhaustive CIGARs (all 9 operation kinds: <=3 ops x lengths {1,2,3}, 4 ops x {1,2}; 5 ops over 7 kinds and 6 ops "
         "over {M,I,D,N,S} with random lengths; thorough: 5 ops x 9 kinds x {1,2}, 6 ops x 6 kinds x 8 length draws) + SAM-like and "
@@ -676,6 +678,18 @@ def gen_selfcheck(ctx):
     else:
         ctx.traces_validated += 1
     ctx.extra["gen_cigar_classes"] = live
+    # the CIGAR walkers regenerated from the source (Gen/LoopsCigar.lean): statistics of the translator self-check
+    # that vcheck ran just before (harness/gencheck.py, ops Gen.get_read_blocks / Gen.concat_gapless_blocks)
+    try:
+        import gencheck
+        st = {k: v for k, v in gencheck.LOOP_STATS.get("functions", {}).items() if k in ("get_read_blocks", "concat_gapless_blocks")}
+        ctx.extra["gen_loops_selfcheck"] = st
+        for name, v in st.items():
+            ctx.hist["genloop:%s" % name] = v["cases"]
+            ctx.evaluations += v["cases"]
+            ctx.traces_validated += v["cases"]
+    except Exception:
+        pass
 
 
 def correspondence(ctx):
